@@ -62,11 +62,11 @@ def transient_case(rng, settle=None):
             pts = [(0, 0.0), (k1, 0.0), (k1 + 1, lv), (k2, lv), (k2 + 1, 0.0), (n, 0.0)]
         inputs[c['id']] = {'shape': shape, 'points': pts, 'level': lv}
     # the time axis need not start at zero: t0 is given in units of the step
-    case = {'circuit': cd, 'n': n, 'inputs': inputs, 'settle': settle, 't0_steps': rng.choice([0, 0, 0, 37, 1000, 12.5])}
+    case = {'circuit': cd, 'n': n, 'inputs': inputs, 'settle': settle, 't0_steps': rng.choice([0, 0, 0, 37, 1000, 12.5, -20, -1000.5])}     # a circuit at rest has no preferred time origin
     if rng.random() < 0.15:
         # the time grid handed over as an INTEGER array (np.arange(0, N)): the circuit's time scale is chosen so that the step is 2
         case['integer_grid'] = True
-        case['t0_steps'] = rng.choice([0, 0, 37, 1000])
+        case['t0_steps'] = rng.choice([0, 0, 37, 1000, -50])
     return case
 
 
@@ -290,6 +290,8 @@ def judge(case, ctx, prefix='C12'):
     ctx.count('simulations'); ctx.count('simulations_' + okey)
     if case.get('t0_steps'):
         ctx.count('simulations_time_axis_not_from_zero')
+    if case.get('t0_steps', 0) < 0:
+        ctx.count('simulations_time_axis_from_negative_time')
     if case.get('sweep_of_previous'):
         ctx.count('simulations_value_sweep')
     h, n = o1['h'], case['n']
